@@ -384,7 +384,8 @@ class SchemaBuilder(
                 else res["type"]
                 for res in results
             )
-            return json_schema(type=list(types))
+            # "type" items must be unique
+            return json_schema(type=list(dict.fromkeys(types)))
         elif (
             len(results) == 2
             and all("type" in res for res in results)
